@@ -21,6 +21,7 @@ def suggest_envs(quick):
     out.append(E(fail_suggest=x))
   out.append(E(fail_suggest='ScriptedError') if quick else E(fail_factory='TypeError'))
   out.append(E(fail_factory='ValueError'))
+  out.append(E(fail_suggest='LoadTooLargeError'))      # "try again later": still a failure of this call
   out += [E(deliver_zero=True), E(delta=-1), E(delta=2), E(md_trials=((9, (), 'k', 'v'),))]
   return out
 
@@ -30,6 +31,7 @@ def stop_envs(quick):
   for x in (('RuntimeError', 'KeyError') if quick else EXCS):
     out.append(E(fail_stop=x))
   out.append(E(fail_factory='ValueError'))
+  out.append(E(fail_stop='LoadTooLargeError'))
   out.append(E(md_trials=((9, (), 'k', 'v'),)))
   return out
 
@@ -177,6 +179,8 @@ def run(ctx):
     cov['runs'].append(c)
   faults = [{'fail_suggest': 'RuntimeError'}, {'fail_suggest': 'KeyError'}, {'fail_factory': 'ValueError'}, {'fail_stop': 'RuntimeError'}, {'fail_stop': 'ScriptedError'},
             {'fail_suggest': 'RuntimeError', 'fail_once': True}, {'fail_stop': 'RuntimeError', 'fail_once': True},       # transient: the first invocation only
+            {'fail_suggest': 'LoadTooLargeError'}, {'fail_stop': 'LoadTooLargeError'}, {'fail_suggest': 'TemporaryPythiaError'}, {'fail_suggest': 'CancelComputeError'},
+            {'fail_stop': 'PythiaProtocolError'}, {'fail_factory': 'VizierDatabaseError'},      # the error classes of the algorithm interface
             {'fail_factory': 'AssertionError', 'fail_bare': True}, {'fail_suggest': 'NotImplementedError', 'fail_bare': True}, {'fail_stop': 'KeyError', 'fail_bare': True}]   # no message
   rdeps = [('local', 'ram'), ('grpc', 'ram'), ('pythia', 'ram')] if ctx.quick else [('local', 'ram'), ('grpc', 'ram'), ('pythia', 'ram'), ('local', 'sql'), ('grpc', 'sql'), ('pythia', 'sql')]
   rn = 0
